@@ -37,10 +37,13 @@ def check(case, rec):
         return
     rec.stat('programs_accepted')
     data = res['data']
-    nseg_expected = sum(len(c) for c in prog['sessions'])
-    has_str = any(o['kind'] == 'channel' and ('str' in o['form']) for calls in prog['sessions'] for call in calls for o in call)
+    nseg_expected = sum(1 for c in prog['sessions'] for call in c if not isinstance(call, dict))
+    has_str = any(o['kind'] == 'channel' and ('str' in o['form']) for calls in prog['sessions'] for call in calls
+                  if not isinstance(call, dict) for o in call)
     rec.nontrivial(has_str or nseg_expected >= 2 or bool(prog['index']))
     rec.label('index=%s' % prog['index'], 'dest=' + prog['dest'])
+    if res['model'].rejected_calls:
+        rec.label('with_rejected_calls_in_between')
     if has_str:
         rec.label('string_channel')
     try:
